@@ -673,6 +673,9 @@ def header_layout_rule(chk, cid, prog, cfgname):
                 else:
                     cur.append((t, node))
             lines = [l for l in lines if l]
+            unk = [node for l in lines[:len(layout)] for (t, node) in l if t == '?']
+            if unk:
+                raise AnalysisBroken('%s: a header read at line %d has a width or trip count this rule cannot evaluate' % (f.name, unk[0].line))
             if len(lines) < len(layout):
                 raise AnalysisBroken('%s: %d fixed-column header records recognised, the format has %d' % (f.name, len(lines), len(layout)))
             for k, want in enumerate(layout):
